@@ -13,6 +13,7 @@ import (
 
 	"github.com/ajitpratap0/GoSQLX/pkg/gosqlx"
 	"github.com/ajitpratap0/GoSQLX/pkg/models"
+	textsec "github.com/ajitpratap0/GoSQLX/pkg/security"
 	"github.com/ajitpratap0/GoSQLX/pkg/sql/ast"
 	"github.com/ajitpratap0/GoSQLX/pkg/sql/security"
 	"github.com/ajitpratap0/GoSQLX/pkg/sql/tokenizer"
@@ -566,10 +567,73 @@ func c09Child(a *ChildArgs) {
 	case "cleanliness":
 		c09Cleanliness(a)
 		c09Distinct(a)
+		c09Lent(a)
 	case "ownership":
 		runtime.GOMAXPROCS(1)
 		c09Ownership(a, 1)
 	case "ownership-race":
 		c09Ownership(a, 8)
+	}
+}
+
+
+// c09Lent: values the caller lends to the library or receives from it stay the caller's: an array assigned to a
+// tree is not kept (and written into) by the pooled container after the tree is released, and a slice returned
+// for inspection is not the library's own.
+func c09Lent(a *ChildArgs) {
+	runtime.GOMAXPROCS(1)
+	debug.SetGCPercent(-1)
+	defer debug.SetGCPercent(100)
+	for round := 0; round < 50; round++ {
+		a.Rec.Count("evaluations", 1)
+		tree, err := gosqlx.Parse("SELECT a FROM t")
+		if err != nil {
+			return
+		}
+		mine := make([]models.Comment, 1, 8)
+		mine[0] = models.Comment{Text: "-- mine"}
+		spare := mine[:cap(mine)]
+		for i := 1; i < len(spare); i++ {
+			spare[i] = models.Comment{Text: fmt.Sprintf("-- spare %d", i)}
+		}
+		tree.Comments = mine
+		ast.ReleaseAST(tree)
+		// whoever gets the container next (here: every container the pool hands out now) appends comments to it
+		var held []*ast.AST
+		for k := 0; k < 4; k++ {
+			n := ast.NewAST()
+			n.Comments = append(n.Comments, models.Comment{Text: "-- theirs"})
+			held = append(held, n)
+		}
+		for i := range spare {
+			want := "-- mine"
+			if i > 0 {
+				want = fmt.Sprintf("-- spare %d", i)
+			}
+			if spare[i].Text != want {
+				a.Rec.Viol("C09/lent/comments-array-written-after-release", "values handed to the caller are never modified by later library activity",
+					fmt.Sprintf("element %d of the caller's comment array reads %q after another holder of the pooled container appended a comment", i, spare[i].Text), map[string]interface{}{"round": round})
+				round = 1 << 30
+				break
+			}
+		}
+		for _, n := range held {
+			ast.ReleaseAST(n)
+		}
+	}
+	sc := textsec.NewScanner()
+	a.Rec.Count("evaluations", 1)
+	if rs := sc.Rules(); len(rs) > 0 {
+		n := len(rs)
+		for i := range rs {
+			rs[i] = nil
+		}
+		again := sc.Rules()
+		for i := range again {
+			if len(again) != n || again[i] == nil {
+				a.Rec.Viol("C09/lent/scanner-rules-shared", "returned values belong to the caller", "writing into the slice returned by Scanner.Rules changed the scanner's own rule list", nil)
+				break
+			}
+		}
 	}
 }
